@@ -78,12 +78,13 @@ theorem generated_default_path_shape :
 
 
 
+
 -- BEGIN PINS (written by bin/mkpins; do not edit by hand)
 /-- the Go functions this property's model and obligations were written against have exactly the
 pinned skeletons (SHA-256 prefix of the atom list) -/
 theorem pinned_skeletons_c15 :
     pinsOk
-    [("Scipipe.#decls", "7633eb8a74616d59"),
+    [("Scipipe.#decls", "08e57e98702ecd70"),
      ("Scipipe.FileIP_Path", "c6a514b4100d9a7c"),
      ("Scipipe.NewTask", "95298f03c320cb96"),
      ("Scipipe.Process_SetOut", "a1605d3714f8fc2a"),
